@@ -567,8 +567,12 @@ def _worker(case):
 def run(ctx, out):
     groups = [("constant", constant_cases(ctx.tier)), ("adaptive", adaptive_cases(ctx.tier)),
               ("newton", newton_cases(ctx.tier)), ("adaptive-real", adaptive_real_cases(ctx.tier, ctx.seed))]
-    if ctx.tier == "thorough":
-        groups.append(("e2e", e2e_cases(ctx.tier, ctx.seed)))
+    e2e = e2e_cases(ctx.tier, ctx.seed)
+    if ctx.tier != "thorough":
+        # quick: every public method on every problem, dense mass matrix, the coarser step / tolerance (several
+        # consecutive steps through one `data` dictionary, state-dependent Jacobian for the nonlinear problem)
+        e2e = [c for c in e2e if c["M"] == "dense" and (c["tau"] == 0.3 if c["mode"] == "const" else c["tol"] == 1e-2)]
+    groups.append(("e2e", e2e))
     for name, cases in groups:
         ncalls = 0
         for case, probs, st in par.pmap(_worker, cases):
